@@ -8,7 +8,7 @@ from ..bytelayout import Layouter, ListVal, flatten, show
 from ..consteval import UNKNOWN, ClassRef, Instance
 from ..framework import rule
 from ..linexpr import atom_name
-from .common import CD, LX, PC, PU, ckey
+from .common import witness_instance, CD, LX, PC, PU, ckey
 
 P = "C14"
 EXPLANATION = (
@@ -393,7 +393,7 @@ def d14_6(ctx):
                 return Obj(kind="tag")
             return UNKNOWN
 
-        kind, res = run_function(ctx, lx.module, fn, {"self": Obj(), p: w}, call_hook=hook, deep=False)
+        kind, res = run_function(ctx, lx.module, fn, {"self": witness_instance(lx), p: w}, call_hook=hook, deep=False)
         key = ckey(lx.key + ".set_plc_time", f"witness:{w}")
         if kind != "return" or "request_data" not in sent:
             ctx.undecided(key, fn, f"set_plc_time not foldable on microseconds={w!r}: {kind} {res}")
@@ -428,7 +428,7 @@ def d14_7(ctx):
                 return ("Tag", [it.ev(a, env) for a in call.args], {k.arg: it.ev(k.value, env) for k in call.keywords})
             return UNKNOWN
 
-        kind, res = run_function(ctx, lx.module, fn, {"self": Obj(), "fmt": "%Y-%m-%d %H:%M:%S"}, call_hook=hook, deep=False)
+        kind, res = run_function(ctx, lx.module, fn, {"self": witness_instance(lx), "fmt": "%Y-%m-%d %H:%M:%S"}, call_hook=hook, deep=False)
         key = ckey(lx.key + ".get_plc_time", f"witness:{us}")
         if kind == "unknown":
             ctx.undecided(key, fn, f"get_plc_time not foldable: {res}")
